@@ -404,6 +404,23 @@ def purity(ctx):
                     same = r2[0] == 'ok' and P.same_result(r1[1], r2[1])
                     ctx.oracle(CL_REPEAT, same, inputs=None if same else {'fn': name, 'shape': label, 'variant': variant, 'args': describe_args(args)},
                                detail={'second call': r2[0] if r2[0] != 'ok' else 'different result'}, facts={'fn': name, 'variant': variant})
+                    # the result depends on the CONTENT of the arrays, not on their identity: refill the same ndarray objects in place with
+                    # another record and call again == calling with fresh arrays of that content (no memo keyed on id / weak reference)
+                    if variant == 'float64' and has_arr and rep < 2:
+                        other = variant_args(makers, rng, variant)
+                        refillable = [i for i, (m, x, y) in enumerate(zip(makers, args, other))
+                                      if m.kind == 'arr' and isinstance(x, np.ndarray) and isinstance(y, np.ndarray) and x.shape == y.shape and x.dtype == y.dtype]
+                        if refillable:
+                            for i in refillable:
+                                args[i][...] = other[i]
+                            fresh = [np.array(x, copy=True) if i in refillable else x for i, x in enumerate(args)]
+                            r3, r4 = call_impl(call, *args), call_impl(call, *fresh)
+                            ok3 = r3[0] == r4[0] and (r3[0] != 'ok' or P.same_result(r3[1], r4[1]))
+                            ctx.hist('purity/same array object refilled in place')
+                            ctx.oracle('C05.d the result is a function of the content of its arrays: the same ndarray object refilled in place and analysed again '
+                                       '== fresh arrays with that content', ok3,
+                                       inputs=None if ok3 else {'fn': name, 'shape': label, 'variant': variant, 'args_after_refill': describe_args(args)},
+                                       detail={'refilled': r3[0] if r3[0] != 'ok' else 'result', 'fresh': r4[0] if r4[0] != 'ok' else 'result'}, facts={'fn': name})
                 if variant == 'float64' and n_ok == 0:
                     ctx.oracle(CL_COVER, False, inputs={'fn': name, 'shape': label, 'args': describe_args(last[1])},
                                detail={'the pinned call raised on every record': last[0]}, facts={'fn': name, 'raised': last[0]})
